@@ -178,7 +178,19 @@ class ExprMixin:
 
     def ev_Dict(self, node, st):
         if node.keys:
-            self.unsupported(node, "non-empty dict display")
+            ks = [self.ev(k, st) for k in node.keys]
+            vs = [self.ev(v, st) for v in node.values]
+            kty = self.join_types([k.ty for k in ks])
+            vty = self.join_types([v.ty for v in vs])
+            m = z3.K(sort_of(kty), z3.BoolVal(False))
+            a = z3.K(sort_of(kty), pack(fresh_default(vty)))
+            c = z3.IntVal(0)
+            for k, v in zip(ks, vs):
+                pk = pack(coerce(k, kty))
+                c = z3.If(z3.Select(m, pk), c, c + 1)
+                m = z3.Store(m, pk, z3.BoolVal(True))
+                a = z3.Store(a, pk, pack(coerce(v, vty)))
+            return VDict(TDict(kty, vty), m, a, z3.simplify(c))
         d = VDict(TDict(ANY, ANY), None, None, z3.IntVal(0))
         d.empty_literal = True
         return d
@@ -299,6 +311,13 @@ class ExprMixin:
         self.unsupported(node, "`is` on non-None values")
 
     def contains(self, coll, x, node, st):
+        if isinstance(coll, VStr) and isinstance(x, VStr):
+            return z3.Contains(coll.t, x.t)
+        if isinstance(x, VOpt) and isinstance(coll, (VSet, VDict)) and not isinstance(getattr(coll, "kty", None), TOpt):
+            # None is never a member of a container of non-optional keys
+            return z3.And(z3.Not(x.isnone), self.contains(coll, x.v, node, st))
+        if isinstance(x, VNone) and isinstance(coll, (VSet, VDict)):
+            return z3.BoolVal(False)
         if isinstance(coll, VSet):
             if hasattr(coll, "lit_items"):
                 return zor(*[eq(x, it) for it in coll.lit_items])
@@ -542,6 +561,9 @@ class ExprMixin:
             return base.get(i)
         if isinstance(base, VDict):
             key = self.ev(node.slice, st)
+            if isinstance(key, VOpt) and not isinstance(base.kty, TOpt):
+                self.oblige(st, "safety", node, z3.Not(key.isnone), "KeyError: None used as key")
+                key = key.v
             return self.dict_get(base, key, node, st, write_back=node.value)
         if isinstance(base, VStr):
             idx = self.num(self.ev(node.slice, st), node, st)
@@ -685,10 +707,12 @@ class ExprMixin:
         if key in self._class_const_cache:
             return self._class_const_cache[key]
         res = None
-        rel = self.class_home.get(cname)
-        if rel:
+        for cn in [cname] + self.bases_of(cname):
+            rel = self.class_home.get(cn)
+            if not rel or res is not None:
+                continue
             try:
-                c = front.find_class(rel, cname)
+                c = front.find_class(rel, cn)
                 for n in c.body:
                     if isinstance(n, ast.Assign) and len(n.targets) == 1 and isinstance(n.targets[0], ast.Name) \
                             and n.targets[0].id == attr:
